@@ -32,7 +32,8 @@ LEVEL_TEXT = ("Decides, for the type-1 rules (apply_transform), validity of ever
               "rules of apply_cond_transformation (graph rewrites with use-count side conditions) are examined by bounded "
               "refutation: the function is interpreted on a finite family of term patterns in type-1 normal form and the words "
               "denoted before/after are compared over a grid of edge-case words; a rule that is wrong only outside that family "
-              "or grid is not found.")
+              "or grid is not found."
+              ' Added in seeding rounds 7-8: the unary folds on str and int constants (C03.i) and a lint that the tables the rules consult are containers, not one-shot iterators (C03.j).')
 EXPLANATION = ("Pattern domain: operands in {0, 1, 2^256-1, X, Y} (X, Y universally quantified words, X=X allowed); the rule "
                "function is interpreted on each pattern for each dispatched opcode. Premise (checked): apply_transform "
                "touches operands only through ==, `in` and all_integers.")
